@@ -1,13 +1,18 @@
 #!/bin/sh
-# usage: batch_seeds.sh C01 C03 ...   (property ids whose /tmp/mut/<id>/mut{A,B}.diff exist)
+# usage: [MUTDIR=/tmp/mut2 WAVE=2 FORCE=1] batch_seeds.sh C01 C03 ...
+# Evaluates <MUTDIR>/<id>/mut{A,B}.diff with demo{A,B}.py against the check of that property.
+# Wave 1 seeds are stored as <id>-A/-B, wave 2 as <id>-C/-D.
 cd "$(dirname "$0")/.."
+MUTDIR=${MUTDIR:-/tmp/mut}
+WAVE=${WAVE:-1}
 for id in "$@"; do
   for s in A B; do
-    p=/tmp/mut/$id/mut$s.diff; d=/tmp/mut/$id/demo$s.py
+    p=$MUTDIR/$id/mut$s.diff; d=$MUTDIR/$id/demo$s.py
     [ -f "$p" ] || continue
-    [ -d seeded/$id-$s ] && [ -z "$FORCE" ] && { echo "$id-$s already stored"; continue; }
-    out=$(python3 tools/keep_seed.py $id-$s $p $d - $id 2>&1 | grep -v conda)
-    echo "== $id-$s: $(echo "$out" | tail -1)"
-    echo "$out" | grep -E '"suite_passes|"demo_exit' | tr -d '\n'; echo
+    t=$s
+    if [ "$WAVE" = "2" ]; then [ "$s" = "A" ] && t=C || t=D; fi
+    [ -d seeded/$id-$t ] && [ -z "$FORCE" ] && { echo "$id-$t already stored"; continue; }
+    out=$(python3 tools/keep_seed.py $id-$t $p $d - ${CHECKS:-$id} 2>&1 | grep -v conda)
+    echo "== $id-$t: $(echo "$out" | tail -1)"
   done
 done
